@@ -146,4 +146,20 @@ theorem C19.pbound_answer (n : Node) (line : String) (hop : DriverE.opOf line = 
   simp only [hop, hk, Bool.false_eq_true, if_false]
   rfl
 
+/-- the same for an observation of the colliding pair: the driver answers with `txidSeenColliding` at the regenerated
+heights (Prague and RLP-hash activation), so that finding F21 is reproduced exactly where `C19.finding_F21_legacy_hash_collision`
+says and nowhere else (`C19.no_collision_under_rlp_hash`). -/
+theorem C19.pbound_collide_answer (n : Node) (line : String) (hop : DriverE.opOf line = "pbound")
+    (hk : (DriverE.argOf line "kind" == "collide") = true) :
+    DriverE.stepCore n line =
+      (n, .inr ("seen=" ++ Forks.txidSeenColliding Gen.PRAGUE_ACTIVATION_HEIGHT_MAINNET Gen.PRAGUE_ACTIVATION_HEIGHT_SIGNET
+        Gen.RLP_HASH_ACTIVATION_HEIGHT_MAINNET Gen.RLP_HASH_ACTIVATION_HEIGHT_SIGNET
+        (Forks.netOf (DriverE.argOf line "net")) (DriverE.argOf line "park").toNat! (DriverE.argOf line "exec").toNat!
+        (DriverE.argOf line "txid") (DriverE.argOf line "other") zeroHash)) := by
+  unfold DriverE.opOf at hop
+  unfold DriverE.argOf at hk ⊢
+  unfold DriverE.stepCore
+  simp only [hop, hk, if_true]
+  rfl
+
 end Brc20
